@@ -25,6 +25,11 @@ if [ "$mode" = all ]; then
   one C04_1 C04 "ColorFromNRGBA#post:channels" yes
   one C05_1 C05 "jpegmeta.readSegment#post:length-bearing" any
   one C11_1 C11 "encoded16ToLinearLUT#guard" any
+  one C15_2 C15 "bounded.images#convert.rgba64-equals-draw" yes
+  one C10_1 C10 "bounded.images#transform.equals-per-pixel-definition" yes
+  one C11_4 C11 "bounded.race#detector-silent" yes
+  one C08_3 C08 "bounded.icc#delivery.same-success-or-error" yes
+  one C17_4 C17 "bounded.icc#description.is-the-declared-string" yes
 fi
 # the unchanged tree must stay quiet
 for p in C16 C13; do
